@@ -538,8 +538,7 @@ package motion
 //@   ensures [C07] !d.dynamicThresh ==> d.tempThresh == old(d.tempThresh) && ncalls("updateBackground") == 0 && ncalls("calculateThreshold") == 0
 //@   ensures [C15] d.dynamicThresh && ffcAffected(frame) ==> d.tempThresh == old(d.tempThresh) && ncalls("updateBackground") == 0
 //@   ensures [C15] d.dynamicThresh && !ffcAffected(frame) ==> ncalls("updateBackground") == 1 && callarg("updateBackground", 1, 1) == frame && callarg("updateBackground", 1, 2) == old(d.affectedByFCC)
-//@   ensures [C15] ncalls("calculateThreshold") <= 1 && (ncalls("calculateThreshold") == 1 ==> ncalls("updateBackground") == 1 && callarg("calculateThreshold", 1, 1) == callres("updateBackground", 1).0 && callres("updateBackground", 1).1 && d.backgroundFrames > d.previewFrames)
-//@   ensures [C15] ncalls("updateBackground") == 1 && callres("updateBackground", 1).1 && d.backgroundFrames > d.previewFrames ==> ncalls("calculateThreshold") == 1
+//@   ensures [C15] ncalls("calculateThreshold") <= 1 && (ncalls("calculateThreshold") == 1 ==> ncalls("updateBackground") == 1 && callarg("calculateThreshold", 1, 1) == callres("updateBackground", 1).0 && callres("updateBackground", 1).1)
 //@   ensures [C15] ncalls("calculateThreshold") == 0 ==> d.tempThresh == old(d.tempThresh)
 
 //@ func (d *motionDetector) Reset(camera)
